@@ -114,7 +114,126 @@ def run_generated(prop, seed, run, tier, known=None, fault_plan=None):
                 b2.step(ev)
         record['session2'] = {'subs': subs2, 'events': ev2}
         merge_bench(b, b2)
+    if fault_plan is None and rng.random() < profile.get('p_alias', 0.12):
+        record['alias'] = alias_spec(rng, subs, events)
+        alias_session(rep, record, b, known)
     return record, b
+
+
+ODD_NAMES = ['all', 'None', 'water of life', 'a to b', 'mL', 'M', 'V0', 'P0', 'x+y', '(z)', 'well A,1', '%w/v', '10 mL', 'U', "it's", 'a, b',
+             'Fill with', '.', '0']
+
+
+def alias_spec(rng, subs, events):
+    """Other names for the same things: what the library sees as the substances' names, and the custom row / column labels of
+    the plates.  Nothing else changes - same kinds, same molar masses, same script - so nothing else may change."""
+    n = len(subs)
+    scheme = rng.choice(['swap', 'case', 'prefix', 'odd', 'odd'])
+    real = [s[5] if len(s) > 5 and s[5] else s[0] for s in subs]
+    if scheme == 'swap' and len(set(real)) > 1:
+        names = real[1:] + real[:1]                        # everybody carries somebody else's name
+    elif scheme == 'case':
+        base = rng.choice(['water', 'salt', 'ab'])
+        names = [''.join(ch.upper() if (i >> k) & 1 else ch for k, ch in enumerate(base)) for i in range(n)]
+    elif scheme == 'prefix':
+        names = ['NaClO4x'[:2 + i] for i in range(n)]      # every name a prefix of the next
+    else:
+        names = rng.sample(ODD_NAMES, n) if n <= len(ODD_NAMES) else [f"n{i}" for i in range(n)]
+    if len(set(names)) != n:
+        names = [f"{x}{i}" for i, x in enumerate(names)]
+    labels = {}
+    for ev in events:
+        if ev.get('op') == 'new_plate':
+            for axis in ('rows', 'cols'):
+                if isinstance(ev[axis], list):
+                    how = rng.choice(['case', 'swap', 'keep'])
+                    old = [str(x) for x in ev[axis]]
+                    if how == 'swap' and len(old) > 1:
+                        new = old[1:] + old[:1]
+                    elif how == 'case':
+                        new = [''.join(ch.upper() if (i >> k) & 1 else ch.lower() for k, ch in enumerate('lbl')) + ('' if i < 8 else str(i)) for i in range(len(old))]
+                    else:
+                        new = old
+                    labels[f"{ev['name']}:{axis}"] = new
+    return {'scheme': scheme, 'names': names, 'labels': labels}
+
+
+def alias_session(rep, record, b, known):
+    import copy
+    spec = record['alias']
+    subs3 = [list(s[:5]) + [spec['names'][i]] for i, s in enumerate(record['subs'])]
+    ev3 = copy.deepcopy(record['events'])
+    for ev in ev3:
+        if ev.get('op') == 'new_plate':
+            for axis in ('rows', 'cols'):
+                new = spec['labels'].get(f"{ev['name']}:{axis}")
+                if new is not None and isinstance(ev[axis], list) and len(new) == len(ev[axis]):
+                    ev[axis] = list(new)
+    try:
+        b3 = Bench(rep, subs3, known=known, cache_policy='never')     # no instruction oracle: its parser reads names
+    except ValueError:
+        return
+    b3.idx = -1
+    for ev in ev3:
+        b3.step(ev)
+    b.stats['probe:alias_session'] += 1
+    charge = {'transfer': ('C01', 'C02', 'C07'), 'remove': ('C17',), 'fill_to': ('C11',), 'dilute': ('C11',)}
+    # 1. every event is decided alike
+    for i, (x, y) in enumerate(zip(b.log, b3.log)):
+        if x.get('out') != y.get('out'):
+            b.idx = i
+            for prop in charge.get(x.get('op'), ('C10',)) + ('C03',):
+                b.V(prop, 'depends_on_names', (x.get('op'), 'outcome'),
+                    f"event {i} ({x.get('op')}) -> {x.get('out')}; with the substances called {spec['names']} and labels {spec['labels']} -> {y.get('out')}")
+            return
+    # 2. every value ever produced is the same value
+    W, W3 = b.world, b3.world
+    for (name, v), idx in sorted(W.created.items(), key=lambda kv: kv[1]):
+        o, o3 = W.reg[name][v], (W3.reg.get(name) or [None] * (v + 1))[v] if len(W3.reg.get(name, ())) > v else None
+        if o3 is None:
+            continue
+        m, m3 = W.alpha(o), W3.alpha(o3)
+        d = model_diff(W, m, m3)
+        if d:
+            b.idx = idx
+            op = b.log[idx].get('op') if 0 <= idx < len(b.log) else None
+            for prop in charge.get(op, ('C10',)):
+                b.V(prop, 'depends_on_names', (op, 'value'),
+                    f"{name}@{v} (event {idx}): {d} - the only difference between the two sessions is what the substances "
+                    f"({spec['names']}) and plate labels ({spec['labels']}) are called")
+            return
+    # violations of the oracles themselves that appear only under the other names
+    base = set(v.fkey() for v in b.violations)
+    for v in b3.violations:
+        if v.known is None and v.fkey() not in base:
+            v.detail += f" [only with the substances called {spec['names']}, labels {spec['labels']}]"
+            b.violations.append(v)
+            break
+
+
+def model_diff(W, m, m3):
+    from fractions import Fraction as F
+    from . import model as M
+
+    def vessel(a, c, where):
+        for n in dict.fromkeys(list(a.contents) + list(c.contents)):
+            x, y = a.contents.get(n), c.contents.get(n)
+            if x is None or y is None:
+                return f"{where}{n} present in one session only"
+            if abs(x - y) > 4 * W.q_amt(n) + max(abs(x), abs(y)) * F(1, 10 ** 12):
+                return f"{where}{n}: {float(x):.12g} vs {float(y):.12g}"
+        return None
+    if isinstance(m, M.MPlate) != isinstance(m3, M.MPlate):
+        return "a plate in one session, a container in the other"
+    if isinstance(m, M.MPlate):
+        if m.shape != m3.shape:
+            return f"shape {m.shape} vs {m3.shape}"
+        for cell in m.all_cells():
+            d = vessel(m.well(cell), m3.well(cell), f"well {cell}: ")
+            if d:
+                return d
+        return None
+    return vessel(m, m3, '')
 
 
 def second_session_subs(rng, subs):
@@ -163,6 +282,8 @@ def run_replay(record, known=None, fault_exec=None):
         for ev in s2['events']:
             b2.step(ev)
         merge_bench(b, b2)
+    if record.get('alias'):
+        alias_session(rep, record, b, known)
     return b
 
 
